@@ -67,4 +67,13 @@ Emit == AllDone => PrintT(<<"CASE", ToJson(Case)>>)
 
 Universe == [files |-> MCFiles, calls |-> MCCalls]
 ASSUME PrintT(<<"UNIVERSE", ToJson(Universe)>>)
+
+\* the hypotheses of the TLAPS proof (spec/proofs/CacheProof.tla, ASSUME Assm) hold in this instance, so
+\* the theorem proved there applies to the very model whose behaviours are replayed into the code
+ProofAssumptions ==
+  /\ PoisonRecovery \in BOOLEAN
+  /\ "free" \notin Threads
+  /\ \A p \in PlanSet : \A t \in Threads : \A i \in 1..Len(p[t]) : p[t][i] \in DOMAIN CallDef
+  /\ \A c \in DOMAIN CallDef : CallDef[c].q \in DOMAIN Files /\ CallDef[c].s \in DOMAIN Files
+ASSUME ProofAssumptions
 =============================================================================
